@@ -41,7 +41,9 @@ def _mid_state(K, kmax):
                                                     for j in range(min(smt.z3val_to_py(m_.eval(n, model_completion=True)), 40))]
         abics = CArr([SFloat(z3.Real(f'abics_{j}'), False, 'npfloat') for j in range(kmax)], 'float')
         return {'vals_orig': vals_orig, 'best_ids': best_ids, 'ncomp': CArr([j + 1 for j in range(kmax)], 'int'),
-                'best_model_ind': K - 1, 'best_ncomp': K, 'abics': abics}
+                'best_model_ind': K - 1, 'best_ncomp': K, 'abics': abics,
+                # the prefix rebinds this parameter only when it is None (then to the documented defaults): a caller's dict stays
+                'layer_base_params': env['layer_base_params'], 'min_sep': env['min_sep']}
     return state
 
 
@@ -151,7 +153,8 @@ def register(reg):
         cases=[('ncomp_max=2', {'ncomp_max': Const(2)}), ('ncomp_max=3', {'ncomp_max': Const(3)})],
         entry_cut={'first_assigns': 'base_comp_heights', 'state': _state,
                    'doc': 'ASSUMED mid-condition after the mixture fit: best_ids holds one label in 0..K-1 per value, every component of the '
-                          'chosen model is populated, K = ncomp[best_model_ind] >= 2, vals_orig are the (finite) input heights'},
+                          'chosen model is populated, K = ncomp[best_model_ind] >= 2, vals_orig are the (finite) input heights, layer_base_params '
+                          'and min_sep are still the caller\'s'},
         arg_pins={('calc_base_height', 0): dict(
             source='vals_orig[best_ids == i].flatten()', value=_component_values,
             doc='values carrying the raw label i, as a non-empty 1-D array (ASSUMED numpy meaning of boolean-mask selection + flatten)')},
